@@ -706,10 +706,15 @@ impl CaseSpace for Accept {
         res.obs = h.0;
         let kind = app::size_of(g, v);
         let mut accepted = 0u64;
-        for func in FUNCS {
-            let no_data = func == fc::READ;
+        // a READ carries headers only; the same headers followed by the object data they would
+        // describe in another function code (second pass) are not a well-formed READ unless the
+        // data happens to read as further headers
+        for (func, no_data) in FUNCS.iter().map(|f| (*f, *f == fc::READ)).chain([(fc::READ, false)]) {
             for shape in 0..SHAPES {
                 let Some((range, data)) = data_for(kind, v, q, shape, no_data) else { continue };
+                if func == fc::READ && !no_data && data.is_empty() {
+                    continue;
+                }
                 for comp in 0..COMPLETENESS {
                     let mut objs = vec![g, v, q];
                     objs.extend_from_slice(&range);
